@@ -53,6 +53,11 @@ func equalValue(x, y reflect.Value) bool {
 	if ok1 && ok2 {
 		return rx.Cmp(ry) == 0
 	}
+	if ok1 != ok2 {
+		// A number equals only numbers. (Without this, a json.Number, whose
+		// kind is String, would be compared with a string by its text.)
+		return false
+	}
 	// A Go array and a slice can hold the same JSON array.
 	if isArrayOrSlice(x) && isArrayOrSlice(y) {
 		if x.Kind() == reflect.Slice && y.Kind() == reflect.Slice {
@@ -276,6 +281,13 @@ func jsonType(v reflect.Value) (string, bool) {
 	case reflect.Bool:
 		return "boolean", true
 	case reflect.String:
+		// A json.Number has kind String but is a JSON number.
+		if r, ok := jsonNumber(v); ok {
+			if r.IsInt() {
+				return "integer", true
+			}
+			return "number", true
+		}
 		return "string", true
 	case reflect.Slice, reflect.Array:
 		return "array", true
@@ -284,6 +296,16 @@ func jsonType(v reflect.Value) (string, bool) {
 	default:
 		return "", false
 	}
+}
+
+// isJSONString reports whether v holds a JSON string.
+// A json.Number has kind String, but is a JSON number.
+func isJSONString(v reflect.Value) bool {
+	if v.Kind() != reflect.String {
+		return false
+	}
+	_, isNumber := jsonNumber(v)
+	return !isNumber
 }
 
 func isArrayOrSlice(v reflect.Value) bool {
